@@ -58,6 +58,19 @@ Theorem C05_resolve_imaginary_gap_width : forall d, good d = true -> wf_zone (zo
 Proof. exact resolve_gap_full_lemma. Qed.
 Print Assumptions C05_resolve_imaginary_gap_width.
 
+(* the guard wf_zone is needed and its complement is an OPEN finding (F-C05-short-regime, audit A1): a
+   30-minute daylight regime; every probed wall time has <= 2 pre-images, yet a wall time with ONE
+   pre-image is called ambiguous, read with the old offset for fold = 0 and reported non-existing *)
+From V Require Import tzfile.TzRefuted.
+Theorem C05_short_regime_refuted : exists d w,
+  good d = true /\ wf_zone (zone_of d) = false /\
+  length (preimages (zone_of d) w) = 1%nat /\
+  (forall x, In x [w - 3600; w; w + 1600; w + 3400] -> (length (preimages (zone_of d) x) <= 2)%nat) /\
+  datetime_ambiguous d w = Ok true /\ datetime_exists d w false = Ok false /\
+  utcoffset d w false = Ok 3600 /\ fromutc d w = Ok (w, true).
+Proof. exact short_regime_refuted_lemma. Qed.
+Print Assumptions C05_short_regime_refuted.
+
 Theorem C05_fixed_classify : forall o w f,
   fixed_exists o w f = true /\ fixed_is_ambiguous o w = false /\
   length (preimages (fixed_zone o) w) = 1%nat.
